@@ -250,6 +250,15 @@ def hOverlapBoundary : Handler := handler fun args =>
     pure (.list ((overlapWithBoundary (← d.toNat?) (← pl.toInts?) (← pr.toInts?) (← bs.toIntss?)).map SExp.ofInts))
   | _ => none
 
+/-- `(trimarg (ranks…))` ↦ index of the argument whose depth/boundary drive the trim of map_overlap, or `none` -/
+def hTrimArg : Handler := handler fun args =>
+  match args with
+  | [rs] => do
+    match trimArg (← rs.toNats?) with
+    | some i => pure (SExp.ofNat i)
+    | none => pure (.sym "none")
+  | _ => none
+
 /-- `(slidingblocks w ((blk…) …))`: per block the windows dask's `sliding_window_view` produces along one axis -/
 def hSlidingBlocks : Handler := handler fun args =>
   match args with
@@ -459,7 +468,7 @@ def table : List (String × Handler) := [
   ("slicend", hSliceND),
   ("overlapchunks", hOverlapChunks), ("trimchunks", hTrimChunks), ("ensuremin", hEnsureMin),
   ("overlapblocks", hOverlapBlocks), ("trimblocks", hTrimBlocks), ("padpositions", hPadPositions),
-  ("overlapboundary", hOverlapBoundary), ("slidingblocks", hSlidingBlocks),
+  ("overlapboundary", hOverlapBoundary), ("trimarg", hTrimArg), ("slidingblocks", hSlidingBlocks),
   ("slicesfromchunks", hSlicesFromChunks), ("fuseslice", hFuseSlice), ("fuseint", hFuseInt),
   ("storeplan", hStorePlan), ("npychunks", hNpyChunks),
   ("parseslice", hParseSlice), ("blockslices", hBlockSlices), ("blockint", hBlockInt),
